@@ -407,6 +407,95 @@ fn check_out_view(c: &VCase, obs: &mut Obs) -> CheckResult {
     Ok(())
 }
 
+/// A caller-supplied VecDeque output buffer whose ring storage is physically wrapped (what a
+/// streaming deque looks like), and a second series that is longer than the first one (allowed: the
+/// output and the number of calls follow the first series).
+fn deque_out_cases(tier: Tier) -> impl Iterator<Item = VCase> {
+    let max_len = tier.pick(8, 14);
+    let mut v = vec![];
+    for len in 0..=max_len {
+        for w in 1..=len + 2 {
+            for drv in 0..6 {
+                for rot in 1..=3usize {
+                    v.push(VCase { len, w, drv, step: (1 + (len + w) % 3) as isize, deque_rot: rot });
+                }
+            }
+        }
+    }
+    v.into_iter()
+}
+
+fn check_deque_out(c: &VCase, obs: &mut Obs) -> CheckResult {
+    use std::mem::MaybeUninit;
+    const SENT: i32 = -777;
+    let (len, w) = (c.len, c.w);
+    let x = xs(len);
+    // the second series is longer by `step` elements
+    let y: Vec<i32> = ys(len + c.step as usize);
+    let dq_in = make_deque(&x, c.deque_rot + 1);
+    // wrapped uninitialised output deque of exactly `len` slots
+    let mut out: VecDeque<MaybeUninit<i32>> = VecDeque::with_capacity(len.max(1));
+    let cap = out.capacity();
+    let r = if len == 0 { 0 } else { c.deque_rot % cap.max(1) };
+    for _ in 0..r {
+        out.push_back(MaybeUninit::new(SENT));
+    }
+    for _ in 0..r {
+        out.pop_front();
+    }
+    for _ in 0..len {
+        out.push_back(MaybeUninit::new(SENT));
+    }
+    let wrapped = !out.as_slices().1.is_empty();
+    let calls = std::cell::Cell::new(0i32);
+    let tok = || {
+        let k = calls.get();
+        calls.set(k + 1);
+        k
+    };
+    let name = ["rolling_apply", "rolling_apply_idx", "rolling2_apply", "rolling2_apply_idx", "rolling_custom", "rolling2_apply(vecdeque input)"][c.drv];
+    let ret: Option<VecDeque<i32>> = match c.drv {
+        0 => x.rolling_apply::<VecDeque<i32>, i32, _>(w, |_, _| tok(), Some(&mut out)),
+        1 => x.rolling_apply_idx::<VecDeque<i32>, i32, _>(w, |_, _, _| tok(), Some(&mut out)),
+        2 => x.rolling2_apply::<VecDeque<i32>, i32, _, _, _>(&y, w, |_, _| tok(), Some(&mut out)),
+        3 => x.rolling2_apply_idx::<VecDeque<i32>, i32, _, _, _>(&y, w, |_, _, _| tok(), Some(&mut out)),
+        4 => x.rolling_custom::<VecDeque<i32>, i32, _>(w, |_| tok(), Some(&mut out)),
+        _ => dq_in.rolling2_apply::<VecDeque<i32>, i32, _, _, _>(&y, w, |_, _| tok(), Some(&mut out)),
+    };
+    if ret.is_some() {
+        return fail(format!("deque_out:{}:out-path", name), "a value was returned although a buffer was supplied");
+    }
+    let got: Vec<i32> = out.iter().map(|v| unsafe { v.assume_init() }).collect();
+    let want: Vec<i32> = (0..len as i32).collect();
+    if got != want || calls.get() != len as i32 {
+        return fail(format!("deque_out:{}:placement", name), format!("{} (len {}, w {}) into a {} VecDeque out buffer: {:?} after {} calls, expected the call numbers {:?}", name, len, w, if wrapped { "wrapped" } else { "contiguous" }, got, calls.get(), want));
+    }
+    // returned path with a longer second series: the output follows the first series
+    if matches!(c.drv, 2 | 3 | 5) {
+        calls.set(0);
+        let r: Option<Vec<i32>> = match c.drv {
+            2 => x.rolling2_apply::<Vec<i32>, i32, _, _, _>(&y, w, |_, v| {
+                let _ = v;
+                tok()
+            }, None),
+            3 => x.rolling2_apply_idx::<Vec<i32>, i32, _, _, _>(&y, w, |_, _, _| tok(), None),
+            _ => dq_in.rolling2_apply::<Vec<i32>, i32, _, _, _>(&y, w, |_, _| tok(), None),
+        };
+        match r {
+            Some(v) if v == want && calls.get() == len as i32 => {},
+            other => return fail(format!("second_longer:{}:output", name), format!("{} (len {}, second series {} longer, w {}) returned {:?} after {} calls, expected {:?}", name, len, c.step, w, other, calls.get(), want)),
+        }
+        let r: Option<Vec<i32>> = x.rolling2_custom::<Vec<i32>, i32, _, _, _>(&y, w, |a: &[i32], b: &[i32]| if a.len() == b.len() { tok() } else { -1 - tok() }, None);
+        calls.set(0);
+        if r.as_ref() != Some(&(len as i32..2 * len as i32).collect::<Vec<i32>>()) && r.as_ref() != Some(&want) {
+            return fail("second_longer:rolling2_custom:output", format!("rolling2_custom (len {}, second series {} longer, w {}) returned {:?}", len, c.step, w, r));
+        }
+    }
+    obs.set_nontrivial(len >= 2 && wrapped);
+    obs.class_if(wrapped, "out_deque_wrapped");
+    Ok(())
+}
+
 fn small_scope(tier: Tier) -> impl Iterator<Item = DCase> {
     let max_len = tier.pick(9, 12);
     let mut v = vec![];
@@ -462,5 +551,6 @@ fn main() {
     p.add(sub_enum("small_scope", small_scope, check_driver));
     p.add(sub("random_cells", 20000, 400000, rand_case, check_driver));
     p.add(sub_enum("out_view_placement", out_view_cases, check_out_view));
+    p.add(sub_enum("deque_out_buffer_and_longer_second_series", deque_out_cases, check_deque_out));
     main_for(p);
 }
